@@ -276,6 +276,15 @@ Proof.
   - apply IH; [|exact Hr]. intros a b Ha Hb. apply Hinj; now right.
 Qed.
 
+Lemma NoDup_app_mid : forall (A : Type) (l r : list A) (x : A), NoDup (l ++ r) -> ~ In x (l ++ r) -> NoDup (l ++ x :: r).
+Proof. intros A l r x H F. apply (NoDup_Add (Add_app x l r)). now split. Qed.
+
+Lemma NoDup_app_snoc : forall (A : Type) (l : list A) (x : A), NoDup l -> ~ In x l -> NoDup (l ++ [x]).
+Proof. intros A l x H F. apply NoDup_app_mid; rewrite app_nil_r; assumption. Qed.
+
+Lemma NoDup_app_tail : forall (A : Type) (l r : list A), NoDup (l ++ r) -> NoDup r.
+Proof. intros A l r. induction l as [|a l IH]; intros H; [exact H|]. cbn in H. inversion H; auto. Qed.
+
 Arguments supply : simpl never.
 Arguments uuid_of_words : simpl never.
 Arguments uuid_wellformedb : simpl never.
@@ -286,11 +295,6 @@ Section Histories.
   Variable beh : behaviour.
 
   Definition supd (d : list Z * nat) : string := supply gen (fst d) (snd d).
-
-  (** the assumption about the engine, relative to the seeds that occur: different (seed, index) pairs
-      give different ids *)
-  Definition supply_injective_on (U : list (list Z)) : Prop :=
-    forall s s' k k', In s U -> In s' U -> supply gen s k = supply gen s' k' -> s = s' /\ k = k'.
 
   (** ** every id is well-formed (no assumption on the engine) *)
 
@@ -545,16 +549,17 @@ End FileId.
 Section Uniqueness.
   Variable gen : list Z -> nat -> Z.
   Variable beh : behaviour.
-  (** all seeds that occur in the history under consideration, and the assumption about the engine *)
-  Variable U : list (list Z).
-  Hypothesis INJ : supply_injective_on gen U.
+  (** the assumption about the engine, relative to a set [P] of (seed, index) pairs — instantiated below with
+      the createId calls the history actually makes: different calls give different ids *)
+  Variable P : list Z * nat -> Prop.
+  Hypothesis INJ : forall d d', P d -> P d' -> supd gen d = supd gen d' -> d = d'.
 
   Notation sd := (supd gen).
 
   (** the bookkeeping of draws: [Q] the seeds used so far, [R] a suspended process (the owner of the file while
       another process works on it) *)
   Record DI (Q : list (list Z)) (R : option proc) (draws : list (list Z * nat)) (cur : proc) (seen : list string) : Prop := {
-    d_QU : incl Q U;
+    d_P : forall d, In d draws -> P d;
     d_nd : NoDup draws;
     d_cur : forall k, In (p_seed cur, k) draws -> (k < p_next cur)%nat;
     d_Q : forall d, In d draws -> In (fst d) Q;
@@ -581,29 +586,26 @@ Section Uniqueness.
   Lemma di_seen_nodup : forall Q R draws cur seen, DI Q R draws cur seen -> NoDup seen.
   Proof.
     intros Q R draws cur seen H. destruct (d_seen _ _ _ _ _ H) as [D [E [ND IN]]]. subst seen.
-    apply NoDup_map_inj_on; [|exact ND]. intros [s k] [s' k'] Ha Hb E.
-    assert (In s U) by (apply (d_QU _ _ _ _ _ H); apply (d_Q _ _ _ _ _ H (s, k)); auto).
-    assert (In s' U) by (apply (d_QU _ _ _ _ _ H); apply (d_Q _ _ _ _ _ H (s', k')); auto).
-    destruct (INJ s s' k k') as [-> ->]; auto.
+    apply NoDup_map_inj_on; [|exact ND]. intros a b Ha Hb E.
+    apply INJ; [apply (d_P _ _ _ _ _ H); auto|apply (d_P _ _ _ _ _ H); auto|exact E].
   Qed.
 
   (** the id about to be drawn has never been stored *)
-  Lemma di_fresh : forall Q R draws cur seen, DI Q R draws cur seen -> ~ In (supply gen (p_seed cur) (p_next cur)) seen.
+  Lemma di_fresh : forall Q R draws cur seen, DI Q R draws cur seen -> P (p_seed cur, p_next cur) ->
+    ~ In (supply gen (p_seed cur) (p_next cur)) seen.
   Proof.
-    intros Q R draws cur seen H Hin. destruct (d_seen _ _ _ _ _ H) as [D [E [ND IN]]]. subst seen.
-    apply in_map_iff in Hin. destruct Hin as [[s k] [E Hd]]. unfold supd in E. cbn [fst snd] in E.
-    assert (In s U) by (apply (d_QU _ _ _ _ _ H); apply (d_Q _ _ _ _ _ H (s, k)); auto).
-    assert (In (p_seed cur) U) by (apply (d_QU _ _ _ _ _ H); apply (d_curQ _ _ _ _ _ H)).
-    destruct (INJ s (p_seed cur) k (p_next cur)) as [-> ->]; auto.
-    pose proof (d_cur _ _ _ _ _ H _ (IN _ Hd)). lia.
+    intros Q R draws cur seen H HP Hin. destruct (d_seen _ _ _ _ _ H) as [D [E [ND IN]]]. subst seen.
+    apply in_map_iff in Hin. destruct Hin as [d [E Hd]].
+    assert (d = (p_seed cur, p_next cur)) by (apply INJ; [apply (d_P _ _ _ _ _ H); auto|exact HP|exact E]).
+    subst d. pose proof (d_cur _ _ _ _ _ H _ (IN _ Hd)). lia.
   Qed.
 
   (** one createId call whose result is thrown away *)
-  Lemma di_draw : forall Q R draws cur seen, DI Q R draws cur seen ->
+  Lemma di_draw : forall Q R draws cur seen, DI Q R draws cur seen -> P (p_seed cur, p_next cur) ->
     DI Q R ((p_seed cur, p_next cur) :: draws) (mkProc (p_seed cur) (S (p_next cur))) seen.
   Proof.
-    intros Q R draws cur seen H. constructor; cbn [p_seed p_next].
-    - exact (d_QU _ _ _ _ _ H).
+    intros Q R draws cur seen H HP. constructor; cbn [p_seed p_next].
+    - intros d [<-|Hd]; [exact HP|exact (d_P _ _ _ _ _ H d Hd)].
     - constructor; [|exact (d_nd _ _ _ _ _ H)]. intros Hin. pose proof (d_cur _ _ _ _ _ H _ Hin). lia.
     - intros k [E|Hin]; [inversion E; lia|]. pose proof (d_cur _ _ _ _ _ H _ Hin). lia.
     - intros d [<-|Hin]; [exact (d_curQ _ _ _ _ _ H)|exact (d_Q _ _ _ _ _ H d Hin)].
@@ -615,11 +617,11 @@ Section Uniqueness.
   Qed.
 
   (** one createId call whose result is stored *)
-  Lemma di_push : forall Q R draws cur seen, DI Q R draws cur seen ->
+  Lemma di_push : forall Q R draws cur seen, DI Q R draws cur seen -> P (p_seed cur, p_next cur) ->
     DI Q R ((p_seed cur, p_next cur) :: draws) (mkProc (p_seed cur) (S (p_next cur)))
        (supply gen (p_seed cur) (p_next cur) :: seen).
   Proof.
-    intros Q R draws cur seen H. pose proof (di_draw _ _ _ _ _ H) as H1.
+    intros Q R draws cur seen H HP. pose proof (di_draw _ _ _ _ _ H HP) as H1.
     constructor; try (destruct H1; assumption).
     destruct (d_seen _ _ _ _ _ H) as [D [E [ND IN]]]. exists ((p_seed cur, p_next cur) :: D). split; [|split].
     - cbn [map]. now rewrite E.
@@ -695,9 +697,474 @@ Section Uniqueness.
         cbn [map] in H, F. apply NoDup_remove in H. destruct H as [H1 H2].
         apply NoDup_app_mid; [exact H1|]. intros Hin. apply F. apply in_app_or in Hin. apply in_or_app.
         destruct Hin; [now left|right; now right].
-      + cbn [map] in H, F.
+      + cbn [map] in H, F. fold (reidentify r o id).
         replace (l ++ e_id e :: map e_id (reidentify r o id)) with ((l ++ [e_id e]) ++ map e_id (reidentify r o id))
           by (rewrite <- app_assoc; reflexivity).
         apply IH2; rewrite <- app_assoc; cbn [app]; assumption.
   Qed.
+
+  Lemma hi_reid : forall ents next file seen o id, HI ents next file seen -> ~ In id seen ->
+    HI (reidentify ents o id) next file (id :: seen).
+  Proof.
+    intros ents next file seen o id [A B C D] F. destruct (reidentify_ids ents o id A) as [R1 R2]. constructor.
+    - now rewrite reidentify_ords.
+    - intros e0 He. assert (In (e_ord e0) (map e_ord (reidentify ents o id))) as Hin by (apply in_map; exact He).
+      rewrite reidentify_ords in Hin. apply in_map_iff in Hin. destruct Hin as [e1 [E1 H1]]. rewrite <- E1. auto.
+    - unfold holders in *. apply (R2 [file]); [exact C|]. intros Hin. apply F. apply D. exact Hin.
+    - unfold holders in *. intros x [<-|Hx]; [right; apply D; now left|].
+      destruct (R1 x Hx) as [->|Hx']; [now left|right; apply D; now right].
+  Qed.
+
+  (** draws are only ever added *)
+  Definition draws_ext (st st' : state) : Prop := exists l, st_draws st' = l ++ st_draws st.
+  Lemma draws_ext_refl : forall st, draws_ext st st.
+  Proof. intros st. now exists []. Qed.
+  Lemma draws_ext_trans : forall a b c, draws_ext a b -> draws_ext b c -> draws_ext a c.
+  Proof. intros a b c [l1 E1] [l2 E2]. exists (l2 ++ l1). rewrite E2, E1. now rewrite app_assoc. Qed.
+  Lemma draws_ext_in : forall st st' d, draws_ext st st' -> In d (st_draws st) -> In d (st_draws st').
+  Proof. intros st st' d [l E] H. rewrite E. apply in_or_app. now right. Qed.
+
+  Lemma create_ext : forall st k parent name ref, draws_ext st (fst (create gen beh st k parent name ref)).
+  Proof.
+    intros. unfold create. destruct (negb (request_ok _ _ _ _)); [apply draws_ext_refl|].
+    destruct (_ && dup_frame_reidentifies beh).
+    - cbn [draw fst snd]. destruct (negb (st_rw st)); [|destruct (find _ _)]; now exists [(p_seed (st_proc st), p_next (st_proc st))].
+    - destruct (_ && existsb _ _); [apply draws_ext_refl|]. cbn [draw fst snd].
+      destruct (st_rw st); now exists [(p_seed (st_proc st), p_next (st_proc st))].
+  Qed.
+
+  Lemma create_all_ext : forall names st k, draws_ext st (fst (create_all gen beh st k names)).
+  Proof.
+    induction names as [|n r IH]; intros st k; [apply draws_ext_refl|].
+    cbn [create_all]. pose proof (create_ext st k None n None) as H1.
+    destruct (create gen beh st k None n None) as [st1 ok1]. cbn [fst] in H1.
+    specialize (IH st1 k). destruct (create_all gen beh st1 k r) as [st2 ok2]. cbn [fst] in *.
+    exact (draws_ext_trans _ _ _ H1 IH).
+  Qed.
+
+  Lemma step_ext : forall st o, draws_ext st (fst (step gen beh st o)).
+  Proof.
+    intros st o. destruct o as [k parent name ref|x| |x|rw|t e k names|t e rw]; cbn [step].
+    - apply create_ext.
+    - destruct (live_ent st x); [|apply draws_ext_refl]. destruct (st_rw st); now exists [].
+    - cbn [draw fst snd]. destruct (st_rw st); now exists [(p_seed (st_proc st), p_next (st_proc st))].
+    - destruct (live_ent st x); apply draws_ext_refl.
+    - now exists [].
+    - destruct (negb _); [apply draws_ext_refl|].
+      pose proof (create_all_ext names (with_rw (with_proc st (new_proc beh t e)) true) k) as H1.
+      destruct (create_all _ _ _ _ _) as [st1 ok]. cbn [fst] in *. exact H1.
+    - now exists [].
+  Qed.
+
+  Lemma run_from_ext : forall h st, draws_ext st (run_from gen beh st h).
+  Proof.
+    induction h as [|o r IH]; intros st; [apply draws_ext_refl|]. cbn.
+    exact (draws_ext_trans _ _ _ (step_ext st o) (IH _)).
+  Qed.
+
+  Definition allP (st : state) : Prop := forall d, In d (st_draws st) -> P d.
+
+  Lemma create_inv : forall Q R st k parent name ref, Inv Q R st ->
+    allP (fst (create gen beh st k parent name ref)) -> Inv Q R (fst (create gen beh st k parent name ref)).
+  Proof.
+    intros Q R st k parent name ref [HD HH]. unfold create, allP.
+    destruct (negb (request_ok st k parent ref)); [now split|].
+    destruct (kind_eqb k KFrame && dup_frame_reidentifies beh).
+    - cbn [draw fst snd]. destruct (negb (st_rw st)).
+      + cbn. intros AP. split; cbn; [apply di_draw; auto|exact HH].
+      + destruct (find _ _) as [old|]; cbn; intros AP;
+          (assert (HP : P (p_seed (st_proc st), p_next (st_proc st))) by (apply AP; now left));
+          pose proof (di_fresh _ _ _ _ _ HD HP) as FR; (split; cbn; [now apply di_push|]).
+        * now apply hi_reid.
+        * now apply hi_add.
+    - destruct (negb (kind_eqb k KFeature) && existsb _ _); [now split|].
+      cbn [draw fst snd]. destruct (st_rw st); cbn; intros AP;
+        (assert (HP : P (p_seed (st_proc st), p_next (st_proc st))) by (apply AP; now left));
+        pose proof (di_fresh _ _ _ _ _ HD HP) as FR; split; cbn.
+      + now apply di_push.
+      + now apply hi_add.
+      + now apply di_draw.
+      + exact HH.
+  Qed.
+
+  Lemma create_all_inv : forall names Q R st k, Inv Q R st ->
+    allP (fst (create_all gen beh st k names)) -> Inv Q R (fst (create_all gen beh st k names)).
+  Proof.
+    induction names as [|n r IH]; intros Q R st k H AP; [exact H|].
+    cbn [create_all] in *. pose proof (create_inv Q R st k None n None H) as H1.
+    pose proof (create_all_ext r (fst (create gen beh st k None n None)) k) as EX.
+    destruct (create gen beh st k None n None) as [st1 ok1]. cbn [fst] in *.
+    specialize (IH Q R st1 k). destruct (create_all gen beh st1 k r) as [st2 ok2]. cbn [fst] in *.
+    apply IH; [|exact AP]. apply H1. intros d Hd. apply AP. exact (draws_ext_in _ _ _ EX Hd).
+  Qed.
+
+  (** create / create_all leave the process's seed alone *)
+  Lemma create_seed : forall st k parent name ref, p_seed (st_proc (fst (create gen beh st k parent name ref))) = p_seed (st_proc st).
+  Proof.
+    intros. unfold create. destruct (negb (request_ok _ _ _ _)); [reflexivity|].
+    destruct (_ && dup_frame_reidentifies beh).
+    - cbn [draw fst snd]. destruct (negb (st_rw st)); [reflexivity|]. destruct (find _ _); reflexivity.
+    - destruct (_ && existsb _ _); [reflexivity|]. cbn [draw fst snd]. destruct (st_rw st); reflexivity.
+  Qed.
+
+  (* ---- processes ---- *)
+
+  Lemma di_weaken : forall Q R draws cur seen s, DI Q R draws cur seen -> DI (s :: Q) R draws cur seen.
+  Proof.
+    intros Q R draws cur seen s [A B C D E F G]. constructor; auto.
+    - intros d Hd. right. auto.
+    - now right.
+    - destruct R as [p|]; [|exact I]. destruct F as [F1 [F2 F3]]. split; [now right|]. split; assumption.
+  Qed.
+
+  Lemma di_new : forall Q draws cur seen s, DI Q None draws cur seen -> ~ In s Q ->
+    DI (s :: Q) (Some cur) draws (mkProc s 0) seen.
+  Proof.
+    intros Q draws cur seen s [A B C D E F G] HN. constructor; cbn [p_seed p_next]; auto.
+    - intros k Hin. exfalso. apply HN. exact (D _ Hin).
+    - intros d Hd. right. auto.
+    - now left.
+    - split; [now right|]. split; [|exact C]. intros Eq. apply HN. rewrite <- Eq. exact E.
+  Qed.
+
+  Lemma di_restore : forall Q p draws cur seen, DI Q (Some p) draws cur seen -> DI Q None draws p seen.
+  Proof. intros Q p draws cur seen [A B C D E [F1 [F2 F3]] G]. constructor; auto. Qed.
+
+  Lemma di_forget : forall Q p draws cur seen, DI Q (Some p) draws cur seen -> DI Q None draws cur seen.
+  Proof. intros Q p draws cur seen [A B C D E F G]. constructor; auto. Qed.
+
+  Definition op_seeds (o : op) : list (list Z) := seeds_of beh (later_procs [o]).
+
+  Lemma step_inv : forall Q st o, Inv Q None st ->
+    (forall s, In s (op_seeds o) -> ~ In s Q) -> allP (fst (step gen beh st o)) ->
+    Inv (op_seeds o ++ Q) None (fst (step gen beh st o)).
+  Proof.
+    intros Q st o H HS. destruct o as [k parent name ref|x| |x|rw|t e k names|t e rw]; cbn [step op_seeds later_procs seeds_of map app fst snd].
+    - now apply create_inv.
+    - intros _. destruct (live_ent st x); [|exact H]. destruct (st_rw st); [|exact H].
+      destruct H as [HD HH]. split; cbn; [exact HD|now apply hi_kill].
+    - destruct H as [HD HH]. unfold allP.
+      cbn [draw fst snd]. destruct (st_rw st); cbn; intros AP;
+        (assert (HP : P (p_seed (st_proc st), p_next (st_proc st))) by (apply AP; now left));
+        pose proof (di_fresh _ _ _ _ _ HD HP) as FR; split; cbn.
+      + now apply di_push.
+      + now apply (hi_file _ _ (st_file st)).
+      + now apply di_draw.
+      + exact HH.
+    - intros _. destruct (live_ent st x); exact H.
+    - intros _. exact H.
+    - pose proof (HS (seed_of beh t e) (or_introl eq_refl)) as HN.
+      destruct H as [HD HH].
+      destruct (negb _); [intros _; split; [now apply di_weaken|exact HH]|].
+      assert (H0 : Inv (seed_of beh t e :: Q) (Some (st_proc st)) (with_rw (with_proc st (new_proc beh t e)) true)).
+      { split; cbn; [now apply di_new|exact HH]. }
+      pose proof (create_all_inv names _ _ _ k H0) as H1.
+      destruct (create_all _ _ _ _ _) as [st1 ok]. cbn [fst] in *. intros AP.
+      destruct (H1 AP) as [HD1 HH1]. split; cbn; [exact (di_restore _ _ _ _ _ HD1)|exact HH1].
+    - intros _. pose proof (HS (seed_of beh t e) (or_introl eq_refl)) as HN.
+      destruct H as [HD HH]. split; cbn; [|exact HH].
+      apply (di_forget _ (st_proc st)). now apply di_new.
+  Qed.
+
+  Lemma later_procs_cons : forall o r, later_procs (o :: r) = later_procs [o] ++ later_procs r.
+  Proof. intros o r. destruct o; reflexivity. Qed.
+
+  Lemma run_from_inv : forall h Q st, Inv Q None st ->
+    NoDup (seeds_of beh (later_procs h)) ->
+    (forall s, In s (seeds_of beh (later_procs h)) -> ~ In s Q) ->
+    allP (run_from gen beh st h) ->
+    exists Q', Inv Q' None (run_from gen beh st h).
+  Proof.
+    induction h as [|o r IH]; intros Q st H ND HS AP; [exists Q; exact H|].
+    rewrite later_procs_cons in ND, HS. unfold seeds_of in ND, HS. rewrite map_app in ND, HS.
+    fold (seeds_of beh (later_procs [o])) in ND, HS. fold (seeds_of beh (later_procs r)) in ND, HS.
+    fold (op_seeds o) in ND, HS.
+    cbn [run_from fold_left] in *. apply (IH (op_seeds o ++ Q)).
+    - apply step_inv; [exact H| |].
+      + intros s Hs. apply HS. apply in_or_app. now left.
+      + intros d Hd. apply AP. exact (draws_ext_in _ _ _ (run_from_ext r _) Hd).
+    - exact (NoDup_app_tail _ _ _ ND).
+    - intros s Hs Hin. apply in_app_or in Hin. destruct Hin as [Hin|Hin].
+      + (* s in both halves of a duplicate-free list *)
+        clear -ND Hs Hin. induction (op_seeds o) as [|a l IHl]; [contradiction|].
+        cbn in ND. inversion ND as [|? ? Hn Hr]; subst. destruct Hin as [->|Hin].
+        * apply Hn. apply in_or_app. now right.
+        * now apply IHl.
+      + apply (HS s); [apply in_or_app; now right|exact Hin].
+    - exact AP.
+  Qed.
+
+  Lemma new_file_inv : forall t e, P (seed_of beh t e, 0%nat) -> Inv [seed_of beh t e] None (new_file gen beh t e).
+  Proof.
+    intros t e HP. unfold new_file, new_proc. cbn [p_seed]. split; cbn.
+    - constructor; cbn [p_seed p_next].
+      + intros d [<-|[]]. exact HP.
+      + constructor; [intros []|constructor].
+      + intros k [E|[]]. inversion E. lia.
+      + intros d [<-|[]]. now left.
+      + now left.
+      + exact I.
+      + exists [(seed_of beh t e, 0%nat)]. split; [reflexivity|]. split; [constructor; [intros []|constructor]|].
+        intros d Hd. exact Hd.
+    - constructor; cbn.
+      + constructor.
+      + intros e0 [].
+      + constructor; [intros []|constructor].
+      + intros x Hx. exact Hx.
+  Qed.
+
+  Lemma run_unique : forall t e h,
+    NoDup (seeds_of beh (procs_of t e h)) -> allP (run gen beh t e h) ->
+    let st := run gen beh t e h in
+    NoDup (st_seen st) /\ NoDup (st_file st :: map e_id (st_ents st)) /\
+    incl (st_file st :: map e_id (st_ents st)) (st_seen st).
+  Proof.
+    intros t e h ND AP st. unfold procs_of in ND. cbn [seeds_of map fst snd] in ND.
+    fold (seeds_of beh (later_procs h)) in ND. inversion ND as [|? ? Hn Hr]; subst.
+    destruct (run_from_inv h [seed_of beh t e] (new_file gen beh t e)) as [Q' [HD HH]].
+    - apply new_file_inv. apply AP. unfold run. apply (draws_ext_in _ _ _ (run_from_ext h _)). now left.
+    - exact Hr.
+    - intros s Hs [<-|[]]. contradiction.
+    - exact AP.
+    - split; [exact (di_seen_nodup _ _ _ _ _ HD)|]. split; [exact (h_nd _ _ _ _ HH)|exact (h_in _ _ _ _ HH)].
+  Qed.
 End Uniqueness.
+
+(** Given processes with pairwise different seeds and an engine that gives different ids to the different
+    createId calls the history makes: in every reachable state — any history, any number of sessions and
+    processes — the ids ever stored in the file are pairwise distinct, and the ids held now (the file's and
+    every entity's, deleted ones included) are pairwise distinct and among them. *)
+Theorem ids_unique_given_supply : forall gen beh t e h,
+  NoDup (seeds_of beh (procs_of t e h)) ->
+  (forall d d', In d (st_draws (run gen beh t e h)) -> In d' (st_draws (run gen beh t e h)) ->
+                supd gen d = supd gen d' -> d = d') ->
+  let st := run gen beh t e h in
+  NoDup (st_seen st) /\ NoDup (st_file st :: map e_id (st_ents st)) /\
+  incl (st_file st :: map e_id (st_ents st)) (st_seen st).
+Proof.
+  intros gen beh t e h ND INJ.
+  apply (run_unique gen beh (fun d => In d (st_draws (run gen beh t e h))) INJ t e h ND).
+  intros d Hd. exact Hd.
+Qed.
+
+(* ------------------------------------------------------------------------------------------ *)
+(** * C. seeds and processes *)
+
+Lemma NoDup_map_inv_inj : forall (A B : Type) (f : A -> B) (l : list A),
+  NoDup (map f l) -> forall a b, In a l -> In b l -> f a = f b -> a = b.
+Proof.
+  intros A B f l. induction l as [|x r IH]; intros H a b Ha Hb E; [contradiction|].
+  cbn in H. inversion H as [|? ? Hn Hr]; subst. destruct Ha as [->|Ha]; destruct Hb as [->|Hb]; auto.
+  - exfalso. apply Hn. rewrite E. now apply in_map.
+  - exfalso. apply Hn. rewrite <- E. now apply in_map.
+Qed.
+
+Lemma NoDup_app_disjoint : forall (A : Type) (l r : list A),
+  NoDup l -> NoDup r -> (forall x, In x l -> ~ In x r) -> NoDup (l ++ r).
+Proof.
+  intros A l r Hl Hr D. induction l as [|a l IH]; [exact Hr|].
+  inversion Hl as [|? ? Hn Hl']; subst. cbn. constructor.
+  - intros Hin. apply in_app_or in Hin. destruct Hin as [Hin|Hin]; [contradiction|]. apply (D a); [now left|exact Hin].
+  - apply IH; [exact Hl'|]. intros x Hx. apply D. now right.
+Qed.
+
+Section Seeds.
+  Variable gen : list Z -> nat -> Z.
+
+  (** the engine is a deterministic function of its seed: equal seeds, equal id sequences *)
+  Theorem same_seed_same_ids : forall s1 s2, s1 = s2 -> forall k, supply gen s1 k = supply gen s2 k.
+  Proof. intros s1 s2 -> k. reflexivity. Qed.
+
+  (** on the pinned tree the seed is the wall-clock second (mod 2^32) and nothing else *)
+  Theorem seed_today_is_the_second_only : forall t e1 e2, seed_of code_today t e1 = seed_of code_today t e2.
+  Proof. reflexivity. Qed.
+
+  Theorem seed_today_wraps : forall t e, seed_of code_today (t + 4294967296) e = seed_of code_today t e.
+  Proof.
+    intros t e. unfold seed_of. cbn [seed_uses_entropy code_today]. f_equal.
+    rewrite <- (Z.mul_1_l 4294967296) at 1. apply Z.mod_add. lia.
+  Qed.
+
+  (** ... so two processes started within one second draw the same ids, whatever the engine *)
+  Theorem same_second_same_ids_today : forall t e1 e2 k,
+    supply gen (seed_of code_today t e1) k = supply gen (seed_of code_today t e2) k.
+  Proof. reflexivity. Qed.
+
+  (** the failing history, for EVERY engine: a process creates a file; a second process started in the same
+      second creates a block in it: the block gets the file's id *)
+  Theorem cross_process_collision_refuted : forall t e1 e2 name,
+    nodupb (st_seen (run gen code_today t e1 [OCreateOther t e2 KBlock [name]])) = false.
+  Proof.
+    intros t e1 e2 name. unfold run, run_from, new_file, new_proc.
+    cbn [fold_left step fst snd kind_eqb orb negb with_proc with_rw st_proc st_rw st_ents st_next st_file st_seen st_draws
+         create_all create request_ok container_ok siblings filter existsb andb dup_frame_reidentifies code_today
+         draw p_seed p_next add_ent].
+    cbn [nodupb existsb]. rewrite String.eqb_refl. reflexivity.
+  Qed.
+
+  (** the same for the runtime experiment: k >= 2 processes in one second share their ids *)
+  Theorem procs_common_today : forall t e1 e2 es n, procs_common gen code_today t (e1 :: e2 :: es) (S n) = true.
+  Proof.
+    intros t e1 e2 es n. unfold procs_common. cbn [flat_map]. apply negb_true_iff.
+    apply (nodupb_false_dup (supply gen (seed_of code_today t e1) 0)).
+    - unfold first_ids. cbn [seq map]. now left.
+    - apply in_or_app. left. unfold first_ids. cbn [seq map]. left. reflexivity.
+  Qed.
+
+  (** repaired: different entropy, different seeds — whatever the clock says *)
+  Theorem distinct_entropy_distinct_seeds : forall t1 t2 e1 e2, e1 <> e2 -> seed_of repaired t1 e1 <> seed_of repaired t2 e2.
+  Proof. intros t1 t2 e1 e2 H E. unfold seed_of in E. cbn [seed_uses_entropy repaired] in E. inversion E. contradiction. Qed.
+
+  Lemma seeds_repaired_nodup : forall ps, NoDup (map snd ps) -> NoDup (seeds_of repaired ps).
+  Proof.
+    induction ps as [|p r IH]; intros H; [constructor|].
+    cbn [map] in H. inversion H as [|? ? Hn Hr]; subst. cbn [seeds_of map]. constructor; [|exact (IH Hr)].
+    intros Hin. apply in_map_iff in Hin. destruct Hin as [q [E Hq]].
+    destruct (Z.eq_dec (snd q) (snd p)) as [Es|Ns].
+    - apply Hn. rewrite <- Es. now apply in_map.
+    - exact (distinct_entropy_distinct_seeds _ _ _ _ Ns E).
+  Qed.
+
+  (** the honest statement after the repair: IF the entropy source gives every process a different value AND the
+      engine gives different ids to the createId calls made (the probabilistic part: 122 random bits), THEN ids are
+      unique across all processes and sessions, start times being arbitrary *)
+  Theorem unique_across_processes_repaired : forall beh t e h,
+    seed_uses_entropy beh = true ->
+    NoDup (map snd (procs_of t e h)) ->
+    (forall d d', In d (st_draws (run gen beh t e h)) -> In d' (st_draws (run gen beh t e h)) ->
+                  supd gen d = supd gen d' -> d = d') ->
+    let st := run gen beh t e h in
+    NoDup (st_seen st) /\ NoDup (st_file st :: map e_id (st_ents st)).
+  Proof.
+    intros beh t e h HE ND INJ st.
+    assert (NS : NoDup (seeds_of beh (procs_of t e h))).
+    { assert (Eq : seeds_of beh (procs_of t e h) = seeds_of repaired (procs_of t e h)).
+      { unfold seeds_of. apply map_ext. intros p. unfold seed_of. now rewrite HE. }
+      rewrite Eq. now apply seeds_repaired_nodup. }
+    destruct (ids_unique_given_supply gen beh t e h NS INJ) as [A [B _]]. now split.
+  Qed.
+
+  (** the runtime experiment after the repair, under the same two assumptions *)
+  Theorem procs_common_repaired : forall t es n,
+    NoDup es ->
+    NoDup (map (supd gen) (flat_map (fun e => map (fun k => (seed_of repaired t e, k)) (seq 0 n)) es)) ->
+    procs_common gen repaired t es n = false.
+  Proof.
+    intros t es n _. unfold procs_common.
+    assert (E : flat_map (fun e => first_ids gen (seed_of repaired t e) n) es =
+                map (supd gen) (flat_map (fun e => map (fun k => (seed_of repaired t e, k)) (seq 0 n)) es)).
+    { induction es as [|e r IH]; [reflexivity|]. cbn [flat_map]. rewrite map_app, IH. f_equal.
+      unfold first_ids. rewrite map_map. reflexivity. }
+    intros H. apply negb_false_iff. apply nodupb_spec. rewrite E. exact H.
+  Qed.
+End Seeds.
+
+(* ------------------------------------------------------------------------------------------ *)
+(** * D. the oracle *)
+
+(** the extracted comparison [observe st = spec_observe st] is exactly the property's statement about a state *)
+Theorem observe_meets_spec : forall st,
+  observe st = spec_observe st <->
+  (uuid_wellformedb (st_file st) = true /\
+   (forall e, In e (st_ents st) -> e_live e = true -> uuid_wellformedb (e_id e) = true /\ e_id e = e_id0 e) /\
+   NoDup (st_seen st)).
+Proof.
+  intros st. unfold observe, spec_observe. split.
+  - intros H. injection H as H1 H2 H3. split; [exact H1|]. split; [|now apply nodupb_spec].
+    intros e He Hl. rewrite map_ext_in_iff in H2.
+    specialize (H2 e (proj2 (filter_In _ _ _) (conj He Hl))). injection H2 as W S.
+    split; [exact W|]. now apply String.eqb_eq.
+  - intros [H1 [H2 H3]]. f_equal; [f_equal; [exact H1|]|now apply nodupb_spec].
+    apply map_ext_in. intros e He. apply filter_In in He. destruct He as [He Hl].
+    destruct (H2 e He Hl) as [W S]. rewrite W, S, String.eqb_refl. reflexivity.
+Qed.
+
+(** with the two repairs in place, distinct seeds and an engine that does not repeat itself on the calls made,
+    the model's observation after every history is the one the property demands *)
+Theorem model_meets_spec_when_repaired : forall gen beh t e h,
+  dup_frame_reidentifies beh = false ->
+  NoDup (seeds_of beh (procs_of t e h)) ->
+  (forall d d', In d (st_draws (run gen beh t e h)) -> In d' (st_draws (run gen beh t e h)) ->
+                supd gen d = supd gen d' -> d = d') ->
+  observe (run gen beh t e h) = spec_observe (run gen beh t e h).
+Proof.
+  intros gen beh t e h NR ND INJ. apply observe_meets_spec.
+  destruct (all_ids_wellformed gen beh t e h) as [Wf [We _]].
+  destruct (ids_unique_given_supply gen beh t e h ND INJ) as [A _].
+  pose proof (ids_stay_as_created gen beh NR t e h) as S.
+  split; [exact Wf|]. split; [|exact A]. intros x Hx _.
+  unfold ids_as_created in S. rewrite Forall_forall in We. rewrite Forall_forall in S.
+  split; [exact (proj1 (We x Hx))|exact (S x Hx)].
+Qed.
+
+(* ------------------------------------------------------------------------------------------ *)
+(** * E. the pinned tree *)
+
+(** block 0, frame 1 named "f", then createDataFrame "f" again: the frame's id is no longer the one it was
+    created with (and the call is an error) *)
+Definition dup_frame_history : list op :=
+  [OCreate KBlock None "b" None; OCreate KFrame (Some 0%nat) "f" None; OCreate KFrame (Some 0%nat) "f" None].
+
+Theorem id_never_changes_refuted :
+  id_of (run toy_gen code_today 100 1 dup_frame_history) 1 <> id_of (run toy_gen code_today 100 1 (firstn 2 dup_frame_history)) 1 /\
+  observe (run toy_gen code_today 100 1 dup_frame_history) <> spec_observe (run toy_gen code_today 100 1 dup_frame_history) /\
+  observe (run toy_gen repaired 100 1 dup_frame_history) = spec_observe (run toy_gen repaired 100 1 dup_frame_history).
+Proof. vm_compute. repeat split; discriminate. Qed.
+
+(* ------------------------------------------------------------------------------------------ *)
+(** * F. checking the hypotheses of the uniqueness theorem on a concrete history *)
+
+Fixpoint zlist_eqb (a b : list Z) : bool :=
+  match a, b with
+  | [], [] => true
+  | x :: r, y :: s => (x =? y) && zlist_eqb r s
+  | _, _ => false
+  end.
+
+Lemma zlist_eqb_refl : forall a, zlist_eqb a a = true.
+Proof. induction a as [|x r IH]; [reflexivity|]. cbn. now rewrite Z.eqb_refl, IH. Qed.
+
+Fixpoint nodupzb (l : list (list Z)) : bool :=
+  match l with
+  | [] => true
+  | x :: r => negb (existsb (zlist_eqb x) r) && nodupzb r
+  end.
+
+Lemma nodupzb_sound : forall l, nodupzb l = true -> NoDup l.
+Proof.
+  induction l as [|x r IH]; intros H; [constructor|].
+  cbn [nodupzb] in H. apply andb_prop in H. destruct H as [H1 H2]. constructor; [|now apply IH].
+  intros Hin. apply negb_true_iff in H1.
+  assert (existsb (zlist_eqb x) r = true) by (apply existsb_exists; exists x; split; [exact Hin|apply zlist_eqb_refl]).
+  congruence.
+Qed.
+
+(** the two hypotheses in decidable form: pairwise different seeds, pairwise different ids for the calls made *)
+Theorem ids_unique_checked : forall gen beh t e h,
+  nodupzb (seeds_of beh (procs_of t e h)) = true ->
+  nodupb (map (supd gen) (st_draws (run gen beh t e h))) = true ->
+  let st := run gen beh t e h in
+  NoDup (st_seen st) /\ NoDup (st_file st :: map e_id (st_ents st)) /\
+  incl (st_file st :: map e_id (st_ents st)) (st_seen st).
+Proof.
+  intros gen beh t e h H1 H2. apply ids_unique_given_supply.
+  - now apply nodupzb_sound.
+  - apply NoDup_map_inv_inj. now apply nodupb_spec.
+Qed.
+
+(** a history over every entity kind with a delete, a re-creation, rejected duplicates, forceId, a read-only session,
+    two other processes started in the SAME second as the creator (their entropy differs) and a take-over *)
+Definition nv_history : list op :=
+  [OCreate KBlock None "b" None; OCreate KSection None "s" None; OCreate KSection (Some 1%nat) "s" None;
+   OCreate KProperty (Some 2%nat) "p" None; OCreate KArray (Some 0%nat) "a" None; OCreate KFrame (Some 0%nat) "f" None;
+   OCreate KFrame (Some 0%nat) "f" None; OCreate KTag (Some 0%nat) "t" None; OCreate KMultiTag (Some 0%nat) "m" (Some 4%nat);
+   OCreate KGroup (Some 0%nat) "g" None; OCreate KSource (Some 0%nat) "r" None; OCreate KSource (Some 9%nat) "r" None;
+   OCreate KFeature (Some 6%nat) "" (Some 4%nat); OCreate KArray (Some 0%nat) "a" None; ODelete 4; OCreate KArray (Some 0%nat) "a" None;
+   OForceId; OSetter 0; OReopen false; OCreate KBlock None "x" None; OForceId; OReopen true;
+   OCreateOther 100 2 KBlock ["y"%string; "z"%string]; OCreateOther 100 3 KSection ["s"%string; "u"%string]; ONewSession 100 4 true; OCreate KBlock None "w" None].
+
+(** the hypotheses of the uniqueness theorem are satisfiable: they hold for this history and the concrete engine *)
+Lemma nv_unique : let st := run toy_gen repaired 100 1 nv_history in
+  NoDup (st_seen st) /\ NoDup (st_file st :: map e_id (st_ents st)) /\
+  incl (st_file st :: map e_id (st_ents st)) (st_seen st).
+Proof. apply ids_unique_checked; vm_compute; reflexivity. Qed.
